@@ -3,6 +3,8 @@
 #   selftest/all-quick.sh [seeds...]   (default: 1 2 3; Miri layer only at the first seed)
 cd "$(dirname "$0")/.."
 SEEDS="${*:-1 2 3}"; first=1; bad=0
+# the harness' own unit tests (path renderer/parser round trip, query shrinker, known-finding predicates)
+(cd sim && RUSTFLAGS="--cfg jsonpath_rust_verif" cargo test --release --offline --target-dir ../target/main 2>&1 | grep -E "^test result" ) || bad=1
 for s in $SEEDS; do
   for id in C09 C12 C15; do
     if [ "$id" = C12 ] && [ "$first" != 1 ]; then export VERIF_MIRI=0; else unset VERIF_MIRI; fi
